@@ -25,7 +25,7 @@ func (eng) Rule() string {
 		"handler names; histories of 6-14 mutations over arbitrary subsets; wide cases: 10-20 states with sparse Require/After relations, all added and then all removed in one mutation each. Each history runs without vetoes, then once per negotiation " +
 		"position (binding, handler name) that fired with a veto there. Per transition the handler log is judged: phase order, " +
 		"After/Require order inside each phase list, negotiation handlers see states-before, final handlers see the applied target, " +
-		"nothing after a veto, every Exit/Enter/self/AnyEnter negotiation handler of an unvetoed accepted transition exactly once in the all-names binding (in auto transitions: the self handlers of the states that stay in the target), finals exactly once per changed state per binding and never for canceled transitions. Evaluation = one " +
+		"nothing after a veto, every Exit/Enter/self/AnyEnter negotiation handler of an unvetoed accepted transition exactly once in the all-names binding (in auto transitions: the self handlers of the states that stay in the target), finals exactly once per changed state per binding and never for canceled transitions; the histories are rerun with a binding, bound first, that detaches itself inside one of its handler calls. Evaluation = one " +
 		"transition with >=1 handler call; distinct non-trivial = distinct (schema, bindings, veto, history prefix)."
 }
 func (eng) Assumptions() []string {
